@@ -32,6 +32,15 @@ def _digest_shard(shard):
         sigs = sorted(v[1] for v in spec.oracle(scn, res))
         out.append((run_no, res.sim.digest(), res.sim.steps,
                     res.sim.outcome[0], sigs))
+        if shard['spec'] == 'C19' and run_no % 25 == 0:
+            # the histories of runs on real children (extra phase of C19)
+            from checks import c19, sched
+            rng = random.Random(driver.mix(seed, 0xE19))
+            scn = c19.gen_rerun(rng)
+            res = c19.run_rerun(scn, sched.draw_chooser(rng, scn))
+            sigs = sorted(v[1] for v in c19.oracle_rerun(scn, res))
+            out.append((run_no + 0.5, res.sim.digest(), res.sim.steps,
+                        res.sim.outcome[0], sigs + [repr(res.ledger)]))
     return out
 
 
